@@ -610,7 +610,7 @@ def capacity_kept_rule(rep, fn):
     return n
 
 
-def no_inverse_exit_rule(rep, u, names=("bn_mod_inv2", "bn_mod_div_mont")):
+def no_inverse_exit_rule(rep, u, names=("bn_mod_inv1", "bn_mod_inv2", "bn_mod_div_mont")):
     n = 0
     for name in names:
         fn = u.fn(name)
@@ -782,3 +782,30 @@ def copy_back_rule(rep, fn):
         (rep.proved if ok else rep.violated)("R-COPYBACK", fn, "result-copied-back:%s" % tn, desc, "" if ok else
                                              "success is returned with %s left as it came in: the whole computation happened in %s" % (P["n"], tn))
     return n
+
+
+
+def reduce_zero_modulus_rule(rep, u, fname="bn_mod_reduce"):
+    """bn = (bn mod (m - 1)) + 1 has no meaning for m = 0: m - 1 wraps to 2^capacity - 1 and the call succeeds with a value that
+    depends on the capacity of the object m happens to live in; a zero test of m with a leaving edge precedes the decrement"""
+    fn = u.fn(fname)
+    if fn is None or not fn.has_cfg:
+        raise driver.AnalysisBroken("anchor %s vanished" % fname)
+    rep.functions.add(fname)
+    m = fn.params[1]["n"]
+    dec = [pos for pos, root, c, ps in fn.calls({"bn_sub_digit"})]
+    if not dec:
+        raise driver.AnalysisBroken("%s: the decrement of the modulus not found" % fname)
+    ok = False
+    for bid in fn.reachable_blocks():
+        c = fn.blocks[bid].cond
+        if c is None or dec[0][0] not in fn.reach_from([bid]):
+            continue
+        for y, _ in walk(c):
+            if y.get("k") == "call" and y.get("fn") == "bn_is_zero" and core.base_ref(y["args"][0]) is not None and core.base_ref(y["args"][0])["n"] == m and \
+                    any(dec[0][0] not in fn.reach_from([s_]) and dec[0][0] != s_ for s_ in fn.blocks[bid].rsucc()):
+                ok = True
+    desc = "%s: a zero modulus is refused before m - 1 is formed" % fname
+    (rep.proved if ok else rep.violated)("R-DOMAIN", fn, "nonzero-modulus", desc, "" if ok else
+                                         "bn_mod_reduce(x, 0) returns 0 with (x mod (2^capacity(m) - 1)) + 1: a different value for m = 0 held in a one-digit and in a two-digit object")
+    return 1
